@@ -97,10 +97,17 @@ def handle(line: str) -> str:
     except Exception as e:
         return exc_name(e)
     out = []
+    others = []
     for t in ops:
         if t[0].startswith("q."):
             out.append(guard(lambda: query(c, t)))
+        elif t[0] == "swap":
+            if others:
+                others[0], c = c, others[0]
+            out.append("ok=" + state(c))
         else:
+            if t[0] in ("copy", "ccopy"):
+                others.insert(0, c)
             try:
                 c = edit(c, t)
                 out.append("ok=" + state(c))
@@ -165,6 +172,12 @@ def evaluate(line: str):
                 return why
         else:
             before = names(c)
+            if t[0] == "swap":
+                if originals:
+                    o, snap = originals[-1]
+                    originals[-1] = (c, before)
+                    c = o
+                continue
             if t[0] in ("copy", "ccopy"):
                 originals.append((c, before))
             try:
